@@ -3,7 +3,7 @@
 import numpy as np
 
 from .. import oracles
-from ..gridutil import amax, argmax_where, case_class
+from ..gridutil import amax, argmax_where, case_class, inbox
 from ..rec import rec
 from .c02 import xpoint_cells
 from .c06 import nu_function  # noqa: F401  (shares the profile handling)
@@ -109,6 +109,7 @@ def run(cap):
     scales = {k: max(amax(np.abs(nc["curl_bOverB_" + k])), 1e-300) for k in "xyz"}
     zero_xlow = []
     rot = {"code": 0.0, "n": 0}
+    nout = [0]
     for region in mesh.regions.values():
         xc = xpoint_cells(region)
         for loc in ("centre", "xlow", "ylow"):
@@ -122,7 +123,10 @@ def run(cap):
             gR, gZ = oracles.fd_grad(psi, R, Z, h=1e-4 * L)
             code = {k: getattr(getattr(region, "curl_bOverB_" + k), loc) for k in "xyz"}
             cx = cR * gR + cZ * gZ
-            selx = np.ones(R.shape, bool) if kink is None else (np.abs(kink(psi(R, Z))) > 0.03)
+            # outside the psi data box the interpolated psi has no derivatives (gridutil.psi_box)
+            M = inbox(eq, R, Z, margin=5e-4 * L)
+            nout[0] += int((~M).sum())
+            selx = M if kink is None else (M & (np.abs(kink(psi(R, Z))) > 0.03))
             upd("curl_bOverB_x." + loc, np.where(selx, np.abs(code["x"] - cx), 0.0), scales["x"], region, loc)
             BR, BZ = gZ / R, -gR / R
             bp = np.hypot(BR, BZ)
@@ -165,13 +169,13 @@ def run(cap):
                 # grad(y) rotation defect and by nothing else
                 cy_c = cR * cgR + cZ * cgZ
                 cz_c = cz / R - Bt * hy / (Bp * R) * cy_c
-                upd("nonorth-as-coded:curl_bOverB_y." + loc, np.abs(code["y"] - cy_c), scales["y"], region, loc)
-                upd("nonorth-as-coded:curl_bOverB_z." + loc, np.abs(code["z"] - cz_c), scales["z"], region, loc)
-            sel = np.ones(R.shape, bool)
+                upd("nonorth-as-coded:curl_bOverB_y." + loc, np.where(M, np.abs(code["y"] - cy_c), 0.0), scales["y"], region, loc)
+                upd("nonorth-as-coded:curl_bOverB_z." + loc, np.where(M, np.abs(code["z"] - cz_c), 0.0), scales["z"], region, loc)
+            sel = M
             if kink is not None:
                 # the tabulated fpol ends (constant continuation) inside the grid: its derivative
                 # jumps there and the oracle's finite differences straddle the kink
-                sel = np.abs(kink(psi(R, Z))) > 0.03
+                sel = M & (np.abs(kink(psi(R, Z))) > 0.03)
             upd("curl_bOverB_y." + loc, np.where(sel, np.abs(code["y"] - cy), 0.0), scales["y"], region, loc)
             upd("curl_bOverB_z." + loc, np.where(sel, np.abs(code["z"] - czz), 0.0), scales["z"], region, loc)
             for k in "xyz":
@@ -201,6 +205,8 @@ def run(cap):
             if ac is not None and ac["worst"] / ac["scale"] <= 1e-3:
                 sig = "explained by the grad(y) rotation: equals the projection on grad(y) as coded"
         out.append(rec(key, cls, w["n"], w["worst"] / w["scale"], thr, where=w["where"], sig=sig, note="max |difference| relative to the field-wide scale"))
+    if nout[0]:
+        out.append(rec("informational: grid points outside the psi data box left out", cls + "|outside-box", nout[0], 0, 0))
     if rot["n"]:
         out.append(rec("nonorth: grad(y) implied by the code's formula is perpendicular to e_x", cls, rot["n"], rot["code"], 0.1, sig="grad(y) rotated by -beta instead of +beta (|cos angle(grad y, e_x)| up to %.2f)" % rot["code"] if rot["code"] > 0.1 else None))
     if zero_xlow:
